@@ -33,6 +33,9 @@ type echoHandler struct {
 	// raw writes bytes directly to the agent's output pipe (frames that are no valid Response)
 	raw     func([]byte)
 	closeFn func() // closes the agent's output pipe under its feet (early close)
+	// noClone: send back the very message object the agent decoded, as udf/agent/examples/mirror does (the agent
+	// decodes the next request into the same Request object: nothing of it may be shared with what is in flight)
+	noClone bool
 }
 
 func snapshotBytes(seen int, restored []byte, pad int) []byte {
@@ -113,16 +116,25 @@ func (h *echoHandler) data(m proto.Message, resp *agent.Response) error {
 
 func (h *echoHandler) BeginBatch(b *agent.BeginBatch) error {
 	c := proto.Clone(b).(*agent.BeginBatch)
+	if h.noClone {
+		return h.data(c, &agent.Response{Message: &agent.Response_Begin{Begin: b}})
+	}
 	return h.data(c, &agent.Response{Message: &agent.Response_Begin{Begin: c}})
 }
 
 func (h *echoHandler) Point(p *agent.Point) error {
 	c := proto.Clone(p).(*agent.Point)
+	if h.noClone {
+		return h.data(c, &agent.Response{Message: &agent.Response_Point{Point: p}})
+	}
 	return h.data(c, &agent.Response{Message: &agent.Response_Point{Point: c}})
 }
 
 func (h *echoHandler) EndBatch(e *agent.EndBatch) error {
 	c := proto.Clone(e).(*agent.EndBatch)
+	if h.noClone {
+		return h.data(c, &agent.Response{Message: &agent.Response_End{End: e}})
+	}
 	return h.data(c, &agent.Response{Message: &agent.Response_End{End: c}})
 }
 
